@@ -914,3 +914,158 @@ Proof.
   intros E st o. unfold read_current, run. simpl. unfold bind.
   destruct (fst (get_all_data_files E st)); simpl; [rewrite app_nil_r|]; reflexivity.
 Qed.
+
+(* ================================================================ C14_healthy_ok: completeness
+   (the model does not raise without cause: an undamaged table is read completely by every API) *)
+Definition noflaky (st : store) : Prop := forall k s b, st k <> Flaky s b.
+
+Lemma exists_noflaky : forall st k s, noflaky st -> fst (st_exists st k s) = Ok (present st k).
+Proof.
+  intros st k s Hn. unfold st_exists, present. destruct (st k) as [| |s' b] eqn:Hc; try reflexivity.
+  exfalso. exact (Hn k s' b Hc).
+Qed.
+
+Lemma get_noflaky : forall st k s b, noflaky st -> cur_bytes st k = Some b -> fst (st_get st k s) = Ok b.
+Proof.
+  intros st k s b Hn Hb. unfold st_get, cur_bytes in *. destruct (st k) as [| b0|s' b0] eqn:Hc.
+  - discriminate.
+  - inversion Hb. reflexivity.
+  - exfalso. exact (Hn k s' b0 Hc).
+Qed.
+
+Lemma resolve_complete : forall E st r md, noflaky st -> spec_meta E st = Some md -> fst (resolve E st r) = Ok (Some md).
+Proof.
+  intros E st r md Hn Hm. apply spec_meta_inv in Hm. destruct Hm as [mk [b [Hres [Hb Hp]]]].
+  unfold resolve. rewrite (bind_fst_ok _ _ _ _ _ (exists_noflaky st HINT (OpExists, r) Hn)).
+  assert (Hh : fst (if present st HINT then b0 <- st_get st HINT (OpRead, r) ;; ret (parse_hint E b0) else ret None) = Ok (hinted E st)).
+  { unfold hinted. destruct (present st HINT) eqn:Hph.
+    - apply present_cur in Hph. destruct Hph as [hb Hhb]. rewrite Hhb.
+      rewrite (bind_fst_ok _ _ _ _ _ (get_noflaky st HINT (OpRead, r) hb Hn Hhb)). reflexivity.
+    - apply present_false in Hph. unfold cur_bytes. rewrite Hph. reflexivity. }
+  rewrite (bind_fst_ok _ _ _ _ _ Hh).
+  assert (Ht : fst (match hinted E st with
+                    | Some mk0 => ex2 <- st_exists st mk0 (OpExists, r) ;;
+                                  if ex2 then ret (Some mk0) else (Ok (recovered E), [(METADIR, (OpList, r))])
+                    | None => (Ok (recovered E), [(METADIR, (OpList, r))])
+                    end) = Ok (Some mk)).
+  { unfold resolved in Hres. destruct (hinted E st) as [mk0|]; [|simpl; rewrite Hres; reflexivity].
+    rewrite (bind_fst_ok _ _ _ _ _ (exists_noflaky st mk0 (OpExists, r) Hn)).
+    destruct (present st mk0); simpl; rewrite Hres; reflexivity. }
+  rewrite (bind_fst_ok _ _ _ _ _ Ht).
+  rewrite (bind_fst_ok _ _ _ _ _ (get_noflaky st mk (OpRead, r) b Hn Hb)). rewrite Hp. reflexivity.
+Qed.
+
+Lemma two_stage_complete : forall A st k (av : bytes -> avro A) js classes b x,
+  noflaky st -> cur_bytes st k = Some b -> content av js classes b = Some x -> fst (two_stage st k av js classes) = Ok x.
+Proof.
+  intros A st k av js classes b x Hn Hb Hc. unfold two_stage.
+  rewrite (bind_fst_ok _ _ _ _ _ (exists_noflaky st k (OpExists, 1%nat) Hn)).
+  assert (Hp : present st k = true) by (apply present_cur; eauto). rewrite Hp. simpl.
+  unfold content in Hc. unfold avro_stage.
+  pose proof (get_noflaky st k (OpOpen, 0%nat) b Hn Hb) as Hg.
+  destruct (av b) as [a|mro] eqn:Hav.
+  - inversion Hc; subst a.
+    assert (Hs : fst (let m := st_get st k (OpOpen, 0%nat) in
+                      match fst m with
+                      | Ok b0 => match av b0 with
+                                 | AvOk a => (Ok (Some a), snd m)
+                                 | AvRaise mro => if caught classes mro then (Ok None, snd m) else (Err EParse, snd m)
+                                 end
+                      | Err e => if caught classes (mro_of e) then (Ok None, snd m) else (Err e, snd m)
+                      end) = Ok (Some x)) by (simpl; rewrite Hg, Hav; reflexivity).
+    rewrite (bind_fst_ok _ _ _ _ _ Hs). reflexivity.
+  - destruct (caught classes mro) eqn:Hca; [|discriminate].
+    assert (Hs : fst (let m := st_get st k (OpOpen, 0%nat) in
+                      match fst m with
+                      | Ok b0 => match av b0 with
+                                 | AvOk a => (Ok (Some a), snd m)
+                                 | AvRaise mro => if caught classes mro then (Ok None, snd m) else (Err EParse, snd m)
+                                 end
+                      | Err e => if caught classes (mro_of e) then (Ok None, snd m) else (Err e, snd m)
+                      end) = Ok (@None A)) by (simpl; rewrite Hg, Hav, Hca; reflexivity).
+    rewrite (bind_fst_ok _ _ _ _ _ Hs).
+    rewrite (bind_fst_ok _ _ _ _ _ (get_noflaky st k (OpRead, 0%nat) b Hn Hb)). rewrite Hc. reflexivity.
+Qed.
+
+Lemma manifest_step_complete : forall E st mref dfs, noflaky st ->
+  spec_manifest E st mref = Some dfs -> fst (manifest_step E st mref) = Ok dfs.
+Proof.
+  intros E st [m|] dfs Hn H; simpl in *; [|inversion H; reflexivity].
+  unfold obind in H. destruct (cur_bytes st m) as [b|] eqn:Hb; [|discriminate].
+  rewrite (bind_fst_ok _ _ _ _ _ (exists_noflaky st m (OpExists, 0%nat) Hn)).
+  assert (Hp : present st m = true) by (apply present_cur; eauto). rewrite Hp. simpl.
+  unfold read_manifest. eapply two_stage_complete; eauto.
+Qed.
+
+Lemma get_all_complete : forall E st md, noflaky st -> spec_meta E st = Some md ->
+  match find_snap md with
+  | Some s => forall dfs, spec_dfiles E st s = Some dfs -> fst (get_all_data_files E st) = Ok dfs
+  | None => (mcur md = None \/ mcur md = Some (-1)) -> fst (get_all_data_files E st) = Ok []
+  end.
+Proof.
+  intros E st md Hn Hm. unfold get_all_data_files.
+  rewrite (bind_fst_ok _ _ _ _ _ (resolve_complete E st 0 md Hn Hm)).
+  destruct (find_snap md) as [s|] eqn:Hs.
+  - intros dfs Hd. unfold spec_dfiles, obind in Hd.
+    destruct (cur_bytes st (slist s)) as [lb|] eqn:Hlb; [|discriminate].
+    destruct (list_content E lb) as [ms|] eqn:Hlc; [|discriminate].
+    destruct (all_some (map (spec_manifest E st) ms)) as [dfss|] eqn:Hall; [|discriminate]. inversion Hd; subst dfs.
+    rewrite (bind_fst_ok _ _ _ _ _ (exists_noflaky st (slist s) (OpExists, 0%nat) Hn)).
+    assert (Hp : present st (slist s) = true) by (apply present_cur; eauto). rewrite Hp. simpl.
+    assert (Hrl : fst (read_list E st (slist s)) = Ok ms) by (unfold read_list; eapply two_stage_complete; eauto).
+    rewrite (bind_fst_ok _ _ _ _ _ Hrl).
+    assert (Hmm : fst (mapM (manifest_step E st) ms) = Ok dfss).
+    { apply mapM_complete. apply all_some_inv in Hall. eapply forall2_impl; [|exact Hall].
+      intros x y Hxy. apply manifest_step_complete; assumption. }
+    rewrite (bind_fst_ok _ _ _ _ _ Hmm). reflexivity.
+  - intro Hc. rewrite (bind_fst_ok _ _ _ _ _ (resolve_complete E st 1 md Hn Hm)).
+    destruct Hc as [-> | ->]; reflexivity.
+Qed.
+
+Definition sums_ok (E : env) (st : store) (dfs : list dfile) : Prop :=
+  forall df b d, In df dfs -> cur_bytes st (dpath df) = Some b -> dsum df = Some d -> sha E b = d.
+
+Lemma read_data_complete : forall E st v df rows, noflaky st ->
+  spec_file_rows E st df = Some rows ->
+  (forall b d, cur_bytes st (dpath df) = Some b -> dsum df = Some d -> sha E b = d) ->
+  fst (read_data E st v df) = Ok rows.
+Proof.
+  intros E st v df rows Hn Hr Hsum. unfold spec_file_rows, obind in Hr.
+  destruct (cur_bytes st (dpath df)) as [b|] eqn:Hb; [|discriminate].
+  destruct (parquet E b) as [rs|p] eqn:Hp; [|discriminate]. inversion Hr; subst rs.
+  unfold read_data. rewrite (bind_fst_ok _ _ _ _ _ (get_noflaky st (dpath df) (data_site v df) b Hn Hb)).
+  destruct v; destruct (dsum df) as [d|] eqn:Hd; rewrite ?Hp; try reflexivity.
+  rewrite (Hsum b d eq_refl eq_refl). rewrite N.eqb_refl. reflexivity.
+Qed.
+
+Theorem healthy_ok : forall E st a o md ans,
+  noflaky st -> spec_meta E st = Some md -> spec_answer E st a md = Some ans ->
+  (forall s dfs, find_snap md = Some s -> spec_dfiles E st s = Some dfs -> sums_ok E st dfs) ->
+  out (read_current E st a o) = Ok ans.
+Proof.
+  intros E st a o md ans Hn Hm Hans Hsums. unfold read_current. simpl. unfold run.
+  pose proof (get_all_complete E st md Hn Hm) as Hg. unfold spec_answer in Hans.
+  destruct (find_snap md) as [s|] eqn:Hs.
+  - unfold obind in Hans. destruct (spec_dfiles E st s) as [dfs|] eqn:Hd; [|discriminate].
+    rewrite (bind_fst_ok _ _ _ _ _ (Hg dfs eq_refl)).
+    destruct (reads_data a) eqn:Hr.
+    + unfold spec_rows, obind in Hans.
+      destruct (all_some (map (spec_file_rows E st) dfs)) as [tabs|] eqn:Hall; [|discriminate]. inversion Hans; subst ans.
+      assert (Hmm : fst (mapM (read_data E st (verify o)) dfs) = Ok tabs).
+      { apply mapM_complete. apply all_some_inv in Hall.
+        pose proof (Hsums s dfs eq_refl Hd) as Hso'. clear Hsums Hg Hd.
+        revert Hso'. induction Hall as [|df t l ts Hdf _ IH]; intro Hso'; [constructor|]. constructor.
+        - apply read_data_complete; [exact Hn|exact Hdf|]. intros b d Hb Hdd. apply (Hso' df b d); [left; reflexivity|exact Hb|exact Hdd].
+        - apply IH; [reflexivity|]. intros df' b d Hin. apply Hso'. right. exact Hin. }
+      assert (Hds : fst (data_stage E st a (verify o) dfs) = Ok (List.concat tabs)).
+      { rewrite data_stage_fst. rewrite (bind_fst_ok _ _ _ _ _ Hmm). reflexivity. }
+      destruct a; try (rewrite (bind_fst_ok _ _ _ _ _ Hds); reflexivity). discriminate.
+    + inversion Hans; subst ans. destruct a; try discriminate. reflexivity.
+  - assert (Hc : mcur md = None \/ mcur md = Some (-1)).
+    { destruct (mcur md) as [id|]; [|left; reflexivity]. destruct (id =? -1) eqn:Hid; [|discriminate].
+      apply Z.eqb_eq in Hid. subst. right. reflexivity. }
+    rewrite (bind_fst_ok _ _ _ _ _ (Hg Hc)).
+    assert (Ha : ans = if reads_data a then ARows [] else ACount 0).
+    { destruct (mcur md) as [id|]; [destruct (id =? -1)|]; inversion Hans; reflexivity. }
+    subst ans. destruct a; reflexivity.
+Qed.
